@@ -259,6 +259,10 @@ def run_path(c, decisions, contracts, world, cfg) -> PathResult:
                 env.set(gname, w)
             clauses.eval_lets(it, c.post_lets, env)
             for cl in c.returns_:
+                if cl.extra.get("assumed_only"):
+                    # a clause callers may assume but that is NOT proved here (it rests on a part of the callee that is summarised): listed as an assumption
+                    it.assumptions_used.add(f"assumed, not proved, at call sites of {c.func}: {cl.text}")
+                    continue
                 try:
                     goal = clauses.eval_clause(it, cl.via if getattr(cl, "via", None) is not None else cl, env)
                 except PyRaise as e:
@@ -418,7 +422,7 @@ def verify_contract(c, contracts, cfg=None):
     except KeyError:
         pass
     # every clause of the contract must have been exercised on at least one path (zero-obligation guard)
-    expected = [f"post:{cl.label}" for cl in c.returns_]
+    expected = [f"post:{cl.label}" for cl in c.returns_ if not cl.extra.get("assumed_only")]
     missing = [l for l in expected if l not in agg] if not stopped_after_refutation else []
     if stopped_after_refutation:
         for a in agg.values():
